@@ -223,8 +223,10 @@ def apply_op(op, schema, prs, rng):
             pass
 
 
-def region_of(paths, op):
+def region_of(paths, op, c=None):
     joined = " ".join(paths)
+    if c is not None and c.get("extras", {}).get("tz_agnostic") and paths and all("_dtype" in p for p in paths):
+        return "K_C05_tzAgnosticDatetime"
     if "statistics" in joined and "options" in joined:
         return "K_C05_statisticsOptionsKey"
     if "tzcol" in joined or "/tz" in joined or "DateTime" in joined:
@@ -245,7 +247,7 @@ def run_history(rep, c, rng, length):
         paths = diff_paths(base, after0)
         rep.property_failure({"case": c, "history": ["validate_probes"]},
                              f"the schema changed after validating probe frames: {paths}",
-                             region=region_of(paths, "validate"))
+                             region=region_of(paths, "validate", c))
         return
     for _ in range(length):
         op = rng.choice(OPS)
@@ -256,7 +258,7 @@ def run_history(rep, c, rng, length):
             paths = diff_paths(base, now)
             rep.property_failure({"case": c, "history": list(hist)},
                                  f"after {op} the schema differs from its snapshot at {paths}",
-                                 region=region_of(paths, op))
+                                 region=region_of(paths, op, c))
             return
         rep.count("op:" + op)
     verdicts = [verdict(schema, p) for p in prs]
@@ -280,7 +282,7 @@ def replay_one(rep, r, rng):
     rep.case({"history": r["history"]})
     if now != base:
         paths = diff_paths(base, now)
-        rep.property_failure(r, f"schema differs from its snapshot at {paths}", region=region_of(paths, ""))
+        rep.property_failure(r, f"schema differs from its snapshot at {paths}", region=region_of(paths, "", c))
 
 
 def run(tier, replay=None):
